@@ -115,6 +115,8 @@ def run(ctx):
     ctx.do(rule_no_hidden_state, "C13.history-independence")
     from .pitfalls import rule_loops_not_cut_short
     ctx.do(rule_loops_not_cut_short, "C13.loops-complete")
+    from .pitfalls import rule_definite_assignment
+    ctx.do(rule_definite_assignment, "C13.definite-assignment")
 
 
 def rule_no_param_mutation(ctx, rule_id="C13.no-param-mutation", modules=None, floor=120):
